@@ -3,7 +3,8 @@ use crate::util::*;
 use darling::FromMeta;
 use serde_json::{json, Value};
 
-pub const FRAGMENTS: [&str; 55] = [
+pub const FRAGMENTS: [&str; 60] = [
+    "self", "super", "crate", "type", "r#match",
     "hello::<u8>", "<T as Tr>::Assoc", "a::b::c::d::<[u8; 2]>::e",
     "foo", "a::b", "::a::b", "a::b::<u8>", "Vec::<u8>::new", "self::x", "crate::m::T", "r#type", "r#fn::x", "Self",
     "x + 1", "f(1, 2)", "|a| a + 1", "|| 5", "{ 1 }", "[1, 2, 3]", "[a; 4]", "1..2", "..", "a..=b", "(a, b)", "!x", "a.b", "if c { 1 } else { 2 }", "&x", "x as u8", "m!(a)",
